@@ -841,12 +841,23 @@ func main() {
 		maxPer, _ = strconv.Atoi(v)
 	}
 	for _, cf := range exhaustiveConfigs(c.Tier) {
-		k := 0
+		// quick tier: an evenly strided sample of at most ~1000 of the interleavings; thorough: all of them
+		totalScheds := 0
+		interleavings(cf.threads(), func([]string) bool { totalScheds++; return true })
+		stride := 1
+		if c.Tier != "thorough" && totalScheds > 1000 {
+			stride = (totalScheds + 999) / 1000
+		}
+		k, idx := 0, 0
 		interleavings(cf.threads(), func(sched []string) bool {
+			idx++
+			if (idx-1+int(c.Seed))%stride != 0 {
+				return true
+			}
 			if k >= maxPer {
 				return false
 			}
-			c.Case(fmt.Sprintf("x-%s-%d", cf.name, k))
+			c.Case(fmt.Sprintf("x-%s-%d", cf.name, idx-1))
 			ops := append(cf.header(), sched...)
 			runCase(c, ops)
 			c.NonTrivial(cf.name + strings.Join(sched, ";"))
